@@ -1,0 +1,21 @@
+//go:build verif
+
+package workspace
+
+import "sort"
+
+// VerifMembers returns the paths of the files currently held by the workspace index
+// (the keys of WorkspaceIndex.fileIndexes), sorted.
+func (w *Workspace) VerifMembers() []string {
+	w.mu.RLock()
+	defer w.mu.RUnlock()
+	if w.index == nil {
+		return nil
+	}
+	paths := make([]string, 0, len(w.index.fileIndexes))
+	for p := range w.index.fileIndexes {
+		paths = append(paths, p)
+	}
+	sort.Strings(paths)
+	return paths
+}
